@@ -239,28 +239,86 @@ theorem forced_stop_single {s1 s2 : Enc} {p : Pkt}
     exact (read_spec h2.setup h2.accepts (tr := pkts (tr ++ [(true, p)])) f hI2 hT2).1 hst
 
 /-- `read` terminates, FULL: in every reachable state, forced or not, `BlockEncoder::read` returns a packet or `None`:
-    it never spins (every `continue` removes a drained block, blocks opened in between are never drained) and it never
-    reaches `debug_assert!(transfer_length == 0)` (blockencoder.rs:81): as long as nothing has been sent every block
-    cut so far is still open, so with `window ≥ 1` and every block accepted the window is not empty. -/
+    it never spins (every `continue` removes a drained block, blocks opened in between are never drained) and never hits an
+    index panic.  (Until the repair of sched-7 the `panic` outcome also stood for `debug_assert!(transfer_length == 0)`,
+    blockencoder.rs:81; the invariant that excluded it - as long as nothing has been sent every block cut so far is still
+    open - now shows that under these hypotheses the "nothing could be read" branch is never taken.) -/
 theorem read_terminates (h : Run P c aL aS nL n closable tr s) (f : Bool) :
     (BlockEnc.read P s f).1 ≠ .hang ∧ (BlockEnc.read P s f).1 ≠ .panic := by
   obtain ⟨hI, hT, _, _⟩ := h.inv
   exact ⟨Flute.BencTerm.read_no_hang h.setup h.accepts f hI hT, Flute.BencNoPanic.run_no_panic h f⟩
 
-/-- … and exactly the two dropped hypotheses make the `debug_assert` reachable:
-    `interleave_blocks = 0` (no block is ever opened), -/
-theorem panic_reachable_window_zero :
+/-- … and when one of the two hypotheses is dropped, since the repair of sched-7 (blockencoder.rs: the empty-object packet
+    only when `transfer_length == 0`) NOTHING is sent instead of the former `debug_assert` panic (dev) / bogus empty packet
+    with B for a non-empty object (release): `window = 0` at encoder level (a `Sender` clamps it to 1), -/
+theorem nothing_sent_when_window_zero :
     (match Enc.new { codec := noCode, e := 2, b := 2, p := 0, window := 0, len := 5 } (.buffer [1, 2, 3, 4, 5]) true with
      | .ok s0 => (BlockEnc.read { codec := noCode, e := 2, b := 2, p := 0, window := 0, len := 5 } s0 false).1
-     | .error _ => .none) = .panic := by decide
+     | .error _ => .hang) = .none := by decide
 
-/-- a codec that refuses the first block (Raptor as it is today: a block of 2 symbols, finding `raptor-k<4`;
-    Reed-Solomon with 0 parity before the repair of D21), -/
-theorem panic_reachable_block_refused :
+/-- a codec that refuses the first block (Raptor as it is today: a block of 2 symbols, finding `raptor-k<4`), -/
+theorem nothing_sent_when_first_block_refused :
     (match Enc.new { codec := raptorLegacy (fun _ _ _ _ => []), e := 4, b := 8, p := 1, window := 1, len := 8 }
         (.buffer (List.range 8)) true with
      | .ok s0 => (BlockEnc.read { codec := raptorLegacy (fun _ _ _ _ => []), e := 4, b := 8, p := 1, window := 1, len := 8 } s0 false).1
-     | .error _ => .none) = .panic := by decide
+     | .error _ => .hang) = .none := by decide
+
+/-- **source fault before the first packet** (sched-7, repaired): for ANY non-empty object, parameters, window ≥ 1 and
+    stream, if the very first `read()` of the stream fails, `BlockEncoder::read` returns `None`: no packet, in particular
+    not the close-object packet of an empty object (forced or not) -/
+theorem read_error_before_first_packet_sends_nothing (P : Params) (st : BlockEnc.Stream) (closable f : Bool)
+    (hl : P.len ≠ 0) (hw : 1 ≤ P.window) (s0 : Enc) (hnew : Enc.new P (.faulty st 0) closable = .ok s0) :
+    (BlockEnc.read P s0 f).1 = .none := by
+  unfold Enc.new at hnew
+  simp only at hnew
+  cases hp : Partition.blockPartitioning P.b P.len P.e with
+  | error w => rw [hp] at hnew; cases hnew
+  | ok q =>
+    obtain ⟨a1, a2, a3, a4⟩ := q
+    rw [hp] at hnew
+    simp only [Except.ok.injEq] at hnew
+    subst hnew
+    obtain ⟨w, hw'⟩ : ∃ w, P.window = w + 1 := ⟨P.window - 1, by omega⟩
+    have key : ∀ (b : Bool) (force : Bool) (fuel : Nat),
+        (readLoop P force (fuel + 1)
+          { src := .faulty st.rewind 0, off := 0, sbn := 0, aL := a1, aS := a2, nL := a3, nB := a4, blocks := [], idx := 0, readEnd := false, srcSent := 0, nbPkt := 0, stopped := b, closable := closable }).1 = .none := by
+      intro b force fuel
+      unfold readLoop readWindow
+      rw [hw']
+      unfold readWindowAux
+      simp only [Bool.false_eq_true, if_false, List.length_nil, hw', Nat.zero_lt_succ, if_true]
+      have hrb : ∀ x : Enc, x.src = .faulty st.rewind 0 → x.blocks = [] → x.nbPkt = 0 →
+          (readBlock P x).readEnd = true ∧ (readBlock P x).blocks = [] ∧ (readBlock P x).nbPkt = 0 := by
+        intro x h1 h2 h3
+        unfold readBlock readBlockFaulty
+        rw [h1]
+        simp only
+        cases hwant : x.blockLength * P.e with
+        | zero => simp [fillE, h2, h3]
+        | succ m => simp [fillE, h2, h3]
+      obtain ⟨r1, r2, r3⟩ := hrb { src := .faulty st.rewind 0, off := 0, sbn := 0, aL := a1, aS := a2, nL := a3, nB := a4, blocks := [], idx := 0, readEnd := false, srcSent := 0, nbPkt := 0, stopped := b, closable := closable } rfl rfl rfl
+      generalize readBlock P _ = y at r1 r2 r3
+      have : readWindowAux P w y = y := by
+        cases w with
+        | zero => rfl
+        | succ m => simp [readWindowAux, r1]
+      rw [this]
+      simp [r2, r3, hl]
+    unfold BlockEnc.read
+    simp only [Bool.false_eq_true, if_false]
+    cases f with
+    | true => simp only [if_true]; unfold readFuel; exact key true true _
+    | false => simp only [Bool.false_eq_true, if_false]; unfold readFuel; exact key false false _
+
+/-- **source fault in mid-transfer** (sched-8, finding): the blocks read before the error are still sent, the others never;
+    the transfer ends without B although it was closable (40 bytes, E = 4, B = 4, window 1, reads of 5 bytes, the 5th read
+    fails: block 0 complete (4 symbols), block 1 lost) -/
+theorem read_error_mid_transfer_truncates_without_close :
+    (match Enc.new { codec := noCode, e := 4, b := 4, p := 0, window := 1, len := 40 }
+        (.faulty { bytes := List.range 40, pos := 0, sched := List.replicate 64 5 } 5) true with
+     | .ok s0 => (runAll { codec := noCode, e := 4, b := 4, p := 0, window := 1, len := 40 } 32 s0).map
+                   (fun p => (p.sbn, p.esi, p.closeObject))
+     | .error _ => []) = [(0, 0, false), (0, 1, false), (0, 2, false), (0, 3, false)] := by decide
 
 /-- while a codec refusing a LATER block ends the transfer silently before that block (11 bytes, E = 1, B = 4: blocks of
     4, 4, 3 symbols; the third is refused: 10 packets of blocks 0 and 1 only, then `None`) -/
